@@ -65,6 +65,14 @@ PROPS = {
         real=['http::server::Server / Impl / Context', 'http RequestParser, Url, Request, Respond', 'network::TcpServer/TcpAcceptor/TcpConnection/BufferedFd', 'eventx::TimerPool (late handlers)', 'event loop'],
         stub=['the HTTP client (raw AF_UNIX socket; segmentation, pacing and disconnects from the plan)', 'syscall outcomes on the server side (short/EAGAIN)', 'monotonic clock'],
     ),
+    'C14': dict(
+        harness='c14_jsonrpc',
+        title='JSON-RPC framing and request completion',
+        flavours=dict(asan=dict(quick_s=30, thorough_s=600)),
+        mode='single',
+        real=['jsonrpc::HeaderStreamProto / RawStreamProto / PacketProto', 'jsonrpc::Proto', 'jsonrpc::Rpc', 'eventx::TimeoutMonitor', 'util::json::FindEndPos', 'util::Serializer/Deserializer', 'event loop + timers'],
+        stub=['the transport between the two endpoints (simulated link: re-segmentation, delay, jitter; loss/duplication/reordering for the datagram framing)', 'monotonic clock'],
+    ),
 }
 
 NOT_APPLICABLE = {
@@ -76,4 +84,4 @@ NOT_APPLICABLE = {
 
 # planned in DESIGN.md §7 but whose harness is not built yet — not claimed until it is
 PENDING = {p: 'harness not built yet (planned in DESIGN.md §7); not claimed until the check exists' for p in
-           ['C04', 'C09', 'C11', 'C13', 'C14', 'C15', 'C17', 'C18', 'C20']}
+           ['C04', 'C09', 'C11', 'C13', 'C15', 'C17', 'C18', 'C20']}
